@@ -15,7 +15,12 @@
               iteration, so a pass is compared as a multiset) or the complete
               Snapshot() right after the call (test scope, as a multiset), for
               an Exec also Ev 92 [times f ran; 0 nil / 1 f's error / 2 other
-              returned], then the marker Ev 90 [clock readings so far]. *)
+              returned], then the marker Ev 90 [clock readings so far].  In
+              long histories on a test scope (whose snapshots grow with the
+              history) and in the serialisations of concurrent runs the harness
+              puts the marker Ev 91 [] after the calls whose outcome it did not
+              write down: the model still takes the step, nothing is compared
+              for that call.  (The harness's direct predicate looks at every call.) *)
 From Coq Require Import ZArith List Bool.
 From Tally Require Import Base.Obs Model.Buckets Model.Timer.
 Import ListNotations.
@@ -47,10 +52,13 @@ Definition op_of_ev (e : ev) : op :=
 Definition flavour_of (z : Z) : flavour :=
   if z =? 0 then FPlain else if z =? 1 then FCached else if z =? 2 then FTest else FBoth.
 
-Fixpoint split_obs (l cur : list ev) : list (list ev * list Z) :=
+(* one segment per call: (looked at?, what was seen, marker integers) *)
+Fixpoint split_obs (l cur : list ev) : list (bool * list ev * list Z) :=
   match l with
   | [] => []
-  | e :: r => if ek e =? 90 then (List.rev cur, ei e) :: split_obs r [] else split_obs r (e :: cur)
+  | e :: r => if ek e =? 90 then (true, List.rev cur, ei e) :: split_obs r []
+              else if ek e =? 91 then (false, [], []) :: split_obs r []
+              else split_obs r (e :: cur)
   end.
 
 Fixpoint remove1 (e : ev) (l : list ev) : option (list ev) :=
@@ -79,17 +87,17 @@ Definition expected (fl : flavour) (s s' : state) : list ev :=
 Definition is_pass (o : op) : bool := match o with OPass => true | _ => false end.
 
 Fixpoint walk (fl : flavour) (clk : nat -> Z) (s : state) (ops : list op)
-              (segs : list (list ev * list Z)) (i : Z) : Z :=
+              (segs : list (bool * list ev * list Z)) (i : Z) : Z :=
   match ops, segs with
   | [], [] => 0
-  | o :: ops', (seg, mark) :: segs' =>
+  | o :: ops', (looked, seg, mark) :: segs' =>
       let s' := step fl clk s o in
       let ex := expected fl s s' in
       let same := match fl with
                   | FTest => perm_eqb ex seg
                   | _ => if is_pass o then perm_eqb ex seg else evs_eqb ex seg
                   end in
-      if same && zs_eqb mark [Z.of_nat (nclk s')] then walk fl clk s' ops' segs' (i + 1) else i
+      if negb looked || (same && zs_eqb mark [Z.of_nat (nclk s')]) then walk fl clk s' ops' segs' (i + 1) else i
   | _, _ => 1000
   end.
 
